@@ -32,7 +32,9 @@ def gen(rng, tier, idx):
     W = world.make_world(wp)
     mcfg = common.draw_mapping_cfg(rng, W)
     mcfg['min_markers'] = max(1, mcfg['min_markers'])
-    mcfg['bootstrap_iteration'] = rng.choice([1, 2, 3, 5, 9])
+    # mostly few iterations (every drawn subset is recorded and re-voted by the model); now and then enough of them
+    # for one child to collect more than 2**8 votes
+    mcfg['bootstrap_iteration'] = rng.choice([1, 2, 3, 5, 9]) if rng.random() > 0.04 else rng.choice([256, 300])
     return {'wp': wp, 'cfg': mcfg, 'sched': common.draw_sched(rng), 'kcfg': common.draw_kernel_cfg(rng)}
 
 
